@@ -5,7 +5,8 @@ evidence dir; applies every /verif/seeded/*/patch.diff in turn in its worktree, 
 tools_seed_matrix.py), restores the worktree. /repo itself is never touched. Writes seeded/RESULTS.json.
 usage: tools_seed_matrix_par.py [-j W] [seed ...]"""
 import json, os, re, shutil, subprocess, sys, threading, queue
-V = "/verif"
+V = os.environ.get("VERIF_SNAPSHOT", "/verif")
+PFX = os.environ.get("VERIF_MATRIX_PREFIX", "/tmp/m")
 sys.path.insert(0, V + "/contracts")
 from registry import REG  # noqa
 args = sys.argv[1:]
@@ -60,7 +61,7 @@ lock = threading.Lock()
 def worker(i):
     import time
     time.sleep(6 * i)  # staggered start: the workers set up their worktrees one after the other
-    wt, bd, rc, evd, rp = f"/tmp/mw{i}", f"/tmp/mb{i}", f"/tmp/mr{i}", f"/tmp/me{i}", f"/tmp/mp{i}"
+    wt, bd, rc, evd, rp = f"{PFX}w{i}", f"{PFX}b{i}", f"{PFX}r{i}", f"{PFX}e{i}", f"{PFX}p{i}"
     subprocess.run(["git", "-C", "/repo", "worktree", "remove", "--force", wt], capture_output=True)
     assert subprocess.run(["git", "-C", "/repo", "worktree", "add", "--detach", wt, "HEAD", "-q"]).returncode == 0
     shutil.rmtree(rc, ignore_errors=True); os.makedirs(rc)
